@@ -74,6 +74,9 @@ structure Iter where
   limit : Nat
   lastBatch : Bool := false
   offsetID : Nat := 0
+  /-- ids the server sends as `messageEmpty` (never in paginated answers of real servers): they take
+  part in sorting and in the offset, but `AsNotEmpty` keeps them out of the buffer -/
+  emptyIds : List Nat := []
   deriving Repr, DecidableEq
 
 def Iter.init (limit : Nat) : Iter := { limit := limit }
@@ -91,7 +94,8 @@ def Iter.apply (s : Iter) (k : Kind) (msgs : List Nat) : Iter :=
     let sorted := sortStable msgs
     match sorted.getLast? with
     | none => { s with lastBatch := true }
-    | some m => { s with lastBatch := lb, offsetID := m, buf := sorted, pos := 0 }
+    | some m => { s with lastBatch := lb, offsetID := m, pos := 0,
+                         buf := sorted.filter (fun x => !s.emptyIds.contains x) }
 
 /-- Observable behaviour of a run of `Next` calls. -/
 structure Out where
